@@ -179,6 +179,18 @@ func (w *halfWriter) Write(p []byte) (int, error) {
 	return n, errors.New("injected: device full")
 }
 
+// acceptThenFailWriter keeps everything it is given and reports a failure each time.
+type acceptThenFailWriter struct {
+	buf   bytes.Buffer
+	calls int
+}
+
+func (w *acceptThenFailWriter) Write(p []byte) (int, error) {
+	w.calls++
+	w.buf.Write(p)
+	return len(p), errors.New("injected: flush failed")
+}
+
 // fragRenderFailingWriter renders fragment i with the File into a writer that fails after having
 // accepted part of the text: the render must report the error, and a qualifier that the accepted
 // bytes show has appeared in output produced with the File.
@@ -239,6 +251,28 @@ var c08Ops = func() []c08Op {
 	add("File.Render", func(w *c08World) bool {
 		w.Log = append(w.Log, "File.Render")
 		w.fileRender(fmt.Sprintf("File.Render #%d", w.nRenders+1))
+		return true
+	})
+	// the writer accepts everything and then reports a failure (a flush that fails): Render must
+	// report it, and what the writer accepted is output produced with the File
+	add("File.Render(writer failing after accepting)", func(w *c08World) bool {
+		w.Log = append(w.Log, "File.Render(writer that accepts the text and then fails)")
+		where := fmt.Sprintf("File.Render #%d into a writer that fails after accepting", w.nRenders+1)
+		aw := &acceptThenFailWriter{}
+		o := jh.Catch(func() (string, error) { return "", w.F.Render(aw) })
+		if o.Panic != nil {
+			w.nRenders++
+			w.problems = append(w.problems, fmt.Sprintf("%s: panic: %v", where, o.Panic))
+			return true
+		}
+		if aw.calls == 0 {
+			w.nRenders++ // the render failed before writing (reported by the File.Render operation)
+			return true
+		}
+		if o.Err == nil {
+			w.problems = append(w.problems, where+": the writer failed but Render returned nil")
+		}
+		w.fileOutput(where, jh.Outcome{Out: aw.buf.String()})
 		return true
 	})
 	// one Block used in two statements of the File: as the body of a case clause and of a function
